@@ -124,7 +124,7 @@ def raw_parse(d):
         "qr": bool(flags & 0x8000),
         "opcode": (flags >> 11) & 0xF,
         "tc": bool(flags & 0x0200),
-        "rcode": flags & 0xF,
+        "rcode": extended_rcode(d),
         "qd": qd,
         "question": None,
     }
@@ -203,6 +203,46 @@ def walk_end(d):
         if pos > len(d):
             return None
     return pos
+
+
+def extended_rcode(d):
+    """The full 12-bit RCODE: the header's 4 bits plus the 8 upper bits carried in the TTL of an OPT
+    record of the additional section (RFC 6891), found by the independent record walk."""
+    if len(d) < 12:
+        return None
+    _, flags, qd, an, ns, ar = struct.unpack("!HHHHHH", d[:12])
+    low = flags & 0xF
+    pos = 12
+
+    def skip_name(p):
+        while True:
+            if p >= len(d):
+                return None
+            c = d[p]
+            if c == 0:
+                return p + 1
+            if c & 0xC0 == 0xC0:
+                return p + 2 if p + 2 <= len(d) else None
+            if c & 0xC0:
+                return None
+            p += 1 + c
+
+    for _ in range(qd):
+        pos = skip_name(pos)
+        if pos is None or pos + 4 > len(d):
+            return low
+        pos += 4
+    for _ in range(an + ns + ar):
+        pos = skip_name(pos)
+        if pos is None or pos + 10 > len(d):
+            return low
+        rtype, _rclass, ttl, rdlen = struct.unpack("!HHIH", d[pos : pos + 10])
+        if rtype == 41:
+            return ((ttl >> 24) << 4) | low
+        pos += 10 + rdlen
+        if pos > len(d):
+            return low
+    return low
 
 
 def has_trailing_octets(d):
@@ -332,6 +372,12 @@ def build_datagram(q, qwire, kind, arg, marker, rng_bytes):
     if kind == "rcode_noq":
         rc = (1, 2, 4, 5)[arg % 4]
         return struct.pack("!HHHHHH", q.id, 0x8000 | rc, 0, 0, 0, 0)
+    if kind == "rcode_noq_ext":
+        # header RCODE 1/2/4/5, no question, but an OPT record whose extended bits make the real
+        # RCODE BADSIG/BADKEY/BADNAME/BADALG-like: not one of the rcodes that excuse a missing question
+        rc = (1, 2, 4, 5)[arg % 4]
+        opt = b"\x00" + struct.pack("!HHIH", 41, 1232, (1 + arg % 3) << 24, 0)
+        return struct.pack("!HHHHHH", q.id, 0x8000 | rc, 0, 0, 0, 1) + opt
     if kind == "rcode_noq_nx":
         return struct.pack("!HHHHHH", q.id, 0x8000 | 3, 0, 0, 0, 0)
     if kind == "tc_genuine":
@@ -362,7 +408,7 @@ def build_datagram(q, qwire, kind, arg, marker, rng_bytes):
 
 UDP_KINDS = [
     "genuine", "genuine", "wrong_id", "not_response", "wrong_opcode", "wrong_qtype", "wrong_qclass", "wrong_qname",
-    "qname_case", "garbage", "cut", "bitflip", "trailing", "rcode_noq", "rcode_noq_nx", "tc_genuine", "tc_forged",
+    "qname_case", "garbage", "cut", "bitflip", "trailing", "rcode_noq", "rcode_noq_nx", "rcode_noq_ext", "tc_genuine", "tc_forged",
     "tc_cut", "tc_trailing", "icmp", "empty", "forged_addr", "forged_port", "textual", "mcast_other", "extra_question", "noq_noerror", "forged_scope", "forged_flow",
 ]
 
